@@ -29,6 +29,8 @@ struct Hist {
     do_reset: bool,
     end_copy_first: bool,
     wbits_inf: c_int,
+    /// end the original stream prematurely (busy), then End again / re-init with failing allocator / End
+    abandon: bool,
 }
 
 struct RunOut {
@@ -38,13 +40,11 @@ struct RunOut {
     requests: usize,
 }
 
-fn apply_mode(tr: &mut Tracker, m: FailMode) {
-    tr.fail_at = None;
-    tr.fail_from = None;
+fn apply_mode(tr: &Tracker, m: FailMode) {
     match m {
-        FailMode::At(k) => tr.fail_at = Some(k),
-        FailMode::From(k) => tr.fail_from = Some(k),
-        FailMode::None => {}
+        FailMode::At(k) => tr.set_fail(Some(k), None),
+        FailMode::From(k) => tr.set_fail(None, Some(k)),
+        FailMode::None => tr.set_fail(None, None),
     }
 }
 
@@ -134,9 +134,9 @@ unsafe extern "C" fn back_out(desc: *mut c_void, buf: *mut u8, len: c_uint) -> c
     0
 }
 
-fn run_hist(h: &Hist, tr: &mut Tracker, mode: FailMode, ar: &Arenas) -> RunOut {
+fn run_hist(h: &Hist, tr: &Tracker, mode: FailMode, ar: &Arenas) -> RunOut {
     let mut ro = RunOut { outs: vec![Vec::new(), Vec::new()], mem_errors: Vec::new(), problems: Vec::new(), requests: 0 };
-    let base_req = tr.requests;
+    let base_req = tr.requests();
     apply_mode(
         tr,
         match mode {
@@ -159,8 +159,8 @@ fn run_hist(h: &Hist, tr: &mut Tracker, mode: FailMode, ar: &Arenas) -> RunOut {
             let mut rc = init(&mut s);
             if rc == Z_MEM_ERROR {
                 ro.mem_errors.push("deflateInit2");
-                if !tr.live.is_empty() {
-                    problem!("deflateInit2/leak-on-failure", "deflateInit2 returned Z_MEM_ERROR but {} block(s) are still allocated", tr.live.len());
+                if tr.live_count() > 0 {
+                    problem!("deflateInit2/leak-on-failure", "deflateInit2 returned Z_MEM_ERROR but {} block(s) are still allocated", tr.live_count());
                 }
                 // ordinary clean-up: End on the stream the caller holds
                 let e = unsafe { Rs::deflateEnd(&mut *s) };
@@ -173,7 +173,7 @@ fn run_hist(h: &Hist, tr: &mut Tracker, mode: FailMode, ar: &Arenas) -> RunOut {
             }
             if rc != Z_OK {
                 problem!("deflateInit2/status", "deflateInit2 returned {} ({})", rc_name(rc), h.cfg.describe());
-                ro.requests = tr.requests - base_req;
+                ro.requests = tr.requests() - base_req;
                 return ro;
             }
             if let Some(d) = &h.dict {
@@ -203,6 +203,35 @@ fn run_hist(h: &Hist, tr: &mut Tracker, mode: FailMode, ar: &Arenas) -> RunOut {
                     }
                     _ => problem!("deflateCopy/status", "deflateCopy returned {}", rc_name(rc)),
                 }
+            }
+            if h.abandon {
+                // the caller gives up on the (busy) original: End, End again, failed re-init, End, good re-init
+                let e = unsafe { Rs::deflateEnd(&mut *s) };
+                if !matches!(e, Z_OK | Z_DATA_ERROR) {
+                    problem!("deflateEnd/busy-status", "deflateEnd on a stream in use returned {}", rc_name(e));
+                }
+                let e2 = unsafe { Rs::deflateEnd(&mut *s) };
+                if e2 != Z_STREAM_ERROR {
+                    problem!("deflateEnd/twice", "a second deflateEnd after ending a busy stream returned {} (expected Z_STREAM_ERROR)", rc_name(e2));
+                }
+                let saved = tr.get_fail();
+                tr.set_fail(None, Some(tr.requests()));
+                let r = init(&mut s);
+                tr.set_fail(saved.0, saved.1);
+                if r != Z_MEM_ERROR {
+                    problem!("deflateInit2/no-mem-error", "deflateInit2 with a failing allocator returned {}", rc_name(r));
+                }
+                let e3 = unsafe { Rs::deflateEnd(&mut *s) };
+                if e3 != Z_STREAM_ERROR {
+                    problem!("deflateEnd/after-failed-reinit", "deflateEnd after End + failed re-init returned {} (expected Z_STREAM_ERROR)", rc_name(e3));
+                }
+                if let Some(mut d) = t.take() {
+                    unsafe { Rs::deflateEnd(&mut *d) };
+                }
+                ro.mem_errors.push("deflateInit2");
+                ro.outs[0] = Vec::new();
+                ro.requests = tr.requests() - base_req;
+                return ro;
             }
             // continue: both streams get the rest
             let mut o1 = o0.clone();
@@ -255,8 +284,8 @@ fn run_hist(h: &Hist, tr: &mut Tracker, mode: FailMode, ar: &Arenas) -> RunOut {
             let mut rc = init(&mut s);
             if rc == Z_MEM_ERROR {
                 ro.mem_errors.push("inflateInit2");
-                if !tr.live.is_empty() {
-                    problem!("inflateInit2/leak-on-failure", "inflateInit2 returned Z_MEM_ERROR but {} block(s) are still allocated", tr.live.len());
+                if tr.live_count() > 0 {
+                    problem!("inflateInit2/leak-on-failure", "inflateInit2 returned Z_MEM_ERROR but {} block(s) are still allocated", tr.live_count());
                 }
                 let e = unsafe { Rs::inflateEnd(&mut *s) };
                 if e != Z_STREAM_ERROR && e != Z_OK {
@@ -267,7 +296,7 @@ fn run_hist(h: &Hist, tr: &mut Tracker, mode: FailMode, ar: &Arenas) -> RunOut {
             }
             if rc != Z_OK {
                 problem!("inflateInit2/status", "inflateInit2({}) returned {}", h.wbits_inf, rc_name(rc));
-                ro.requests = tr.requests - base_req;
+                ro.requests = tr.requests() - base_req;
                 return ro;
             }
             let mut pos = 0usize;
@@ -296,6 +325,37 @@ fn run_hist(h: &Hist, tr: &mut Tracker, mode: FailMode, ar: &Arenas) -> RunOut {
                         }
                     }
                 }
+            }
+            if h.abandon {
+                let e = unsafe { Rs::inflateEnd(&mut *s) };
+                if e != Z_OK {
+                    problem!("inflateEnd/busy-status", "inflateEnd on a stream in use returned {}", rc_name(e));
+                }
+                let e2 = unsafe { Rs::inflateEnd(&mut *s) };
+                if e2 != Z_STREAM_ERROR {
+                    problem!("inflateEnd/twice", "a second inflateEnd returned {} (expected Z_STREAM_ERROR)", rc_name(e2));
+                }
+                let saved = tr.get_fail();
+                tr.set_fail(None, Some(tr.requests()));
+                let r = init(&mut s);
+                tr.set_fail(saved.0, saved.1);
+                if std::env::var("VERIF_DEBUG").is_ok() {
+                    eprintln!("abandon-inflate: r {} requests {} failed {} saved {:?} zalloc set {}", r, tr.requests(), tr.failed(), saved, s.zalloc.is_some());
+                }
+                if r != Z_MEM_ERROR {
+                    problem!("inflateInit2/no-mem-error", "inflateInit2 with a failing allocator returned {}", rc_name(r));
+                }
+                let e3 = unsafe { Rs::inflateEnd(&mut *s) };
+                if e3 != Z_STREAM_ERROR {
+                    problem!("inflateEnd/after-failed-reinit", "inflateEnd after End + failed re-init returned {} (expected Z_STREAM_ERROR)", rc_name(e3));
+                }
+                if let Some(mut d) = t.take() {
+                    unsafe { Rs::inflateEnd(&mut *d) };
+                }
+                ro.mem_errors.push("inflateInit2");
+                ro.outs[0] = Vec::new();
+                ro.requests = tr.requests() - base_req;
+                return ro;
             }
             let mut o1 = o0.clone();
             let mut p1 = pos;
@@ -341,8 +401,8 @@ fn run_hist(h: &Hist, tr: &mut Tracker, mode: FailMode, ar: &Arenas) -> RunOut {
             let mut rc = unsafe { Rs::inflateBackInit(&mut *s, wb, win) };
             if rc == Z_MEM_ERROR {
                 ro.mem_errors.push("inflateBackInit");
-                if !tr.live.is_empty() {
-                    problem!("inflateBackInit/leak-on-failure", "inflateBackInit returned Z_MEM_ERROR but {} block(s) are still allocated", tr.live.len());
+                if tr.live_count() > 0 {
+                    problem!("inflateBackInit/leak-on-failure", "inflateBackInit returned Z_MEM_ERROR but {} block(s) are still allocated", tr.live_count());
                 }
                 let e = unsafe { Rs::inflateBackEnd(&mut *s) };
                 if e != Z_STREAM_ERROR && e != Z_OK {
@@ -353,7 +413,7 @@ fn run_hist(h: &Hist, tr: &mut Tracker, mode: FailMode, ar: &Arenas) -> RunOut {
             }
             if rc != Z_OK {
                 problem!("inflateBackInit/status", "inflateBackInit returned {}", rc_name(rc));
-                ro.requests = tr.requests - base_req;
+                ro.requests = tr.requests() - base_req;
                 return ro;
             }
             let ip = ar.inp.put_right(&h.comp);
@@ -371,7 +431,7 @@ fn run_hist(h: &Hist, tr: &mut Tracker, mode: FailMode, ar: &Arenas) -> RunOut {
             }
         }
     }
-    ro.requests = tr.requests - base_req;
+    ro.requests = tr.requests() - base_req;
     ro
 }
 
@@ -405,15 +465,16 @@ pub fn case(tape: &[u8], ctx: &Ctx) -> Outcome {
         do_reset: kind != 2 && t.chance(100),
         end_copy_first: t.bool(),
         wbits_inf: cfg.inflate_bits(),
+        abandon: kind != 2 && t.chance(70),
     };
     let fill = t.pick(&[0x00u8, 0xFF, 0xA5, 0x5A]);
     ARENAS.with(|ar| {
-        let mut tr = Tracker::new(fill);
+        let tr = Tracker::new(fill);
         guard::register(&tr);
         FOREIGN_ERRORS.with(|e| e.borrow_mut().clear());
-        let describe = format!("{} data {} bytes pre_calls {} chunk {} copy {} reset {} end_copy_first {}", ["deflate", "inflate", "inflateBack"][h.kind], h.data.len(), h.pre_calls, h.chunk, h.do_copy, h.do_reset, h.end_copy_first);
-        let check_clean = |tr: &mut Tracker, o: &mut Outcome, what: &str| -> bool {
-            if let Some(e) = tr.errors.first() {
+        let describe = format!("{} data {} bytes pre_calls {} chunk {} copy {} reset {} end_copy_first {} abandon {}", ["deflate", "inflate", "inflateBack"][h.kind], h.data.len(), h.pre_calls, h.chunk, h.do_copy, h.do_reset, h.end_copy_first, h.abandon);
+        let check_clean = |tr: &Tracker, o: &mut Outcome, what: &str| -> bool {
+            if let Some(e) = tr.first_error() {
                 o.fail("allocator/bad-free", format!("{}: {} [{}; {}]", what, e, describe, h.cfg.describe()));
                 return false;
             }
@@ -422,8 +483,8 @@ pub fn case(tape: &[u8], ctx: &Ctx) -> Outcome {
                 o.fail("allocator/foreign-opaque", format!("{}: {} [{}]", what, e, describe));
                 return false;
             }
-            if !tr.live.is_empty() {
-                let n = tr.live.len();
+            if tr.live_count() > 0 {
+                let n = tr.live_count();
                 tr.leak_free_all();
                 o.fail("allocator/leak", format!("{}: {} block(s) obtained from zalloc were not released by the matching End [{}; {}]", what, n, describe, h.cfg.describe()));
                 return false;
@@ -431,17 +492,17 @@ pub fn case(tape: &[u8], ctx: &Ctx) -> Outcome {
             true
         };
         // control run
-        let control = run_hist(&h, &mut tr, FailMode::None, ar);
+        let control = run_hist(&h, &tr, FailMode::None, ar);
         if let Some((sig, msg)) = control.problems.first() {
             // without injected failures the history must simply work; anything else is not C18's business
             // except allocator discipline, checked below
-            if sig.starts_with("deflateEnd/twice") || sig.starts_with("inflateEnd/twice") {
+            if sig.starts_with("deflateEnd/") || sig.starts_with("inflateEnd/") || sig.contains("no-mem-error") {
                 o.fail(sig.clone(), format!("{} [{}]", msg, describe));
                 guard::unregister(&tr);
                 return;
             }
         }
-        if !check_clean(&mut tr, &mut o, "control run") {
+        if !check_clean(&tr, &mut o, "control run") {
             guard::unregister(&tr);
             return;
         }
@@ -450,7 +511,7 @@ pub fn case(tape: &[u8], ctx: &Ctx) -> Outcome {
         let mut nontrivial_runs = 0;
         for k in 0..n {
             for mode in [FailMode::At(k), FailMode::From(k)] {
-                let r = run_hist(&h, &mut tr, mode, ar);
+                let r = run_hist(&h, &tr, mode, ar);
                 o.evals += 1;
                 let what = format!("request {} of {} failing ({:?})", k, n, mode);
                 if r.mem_errors.is_empty() {
@@ -463,7 +524,7 @@ pub fn case(tape: &[u8], ctx: &Ctx) -> Outcome {
                     guard::unregister(&tr);
                     return;
                 }
-                if !check_clean(&mut tr, &mut o, &what) {
+                if !check_clean(&tr, &mut o, &what) {
                     guard::unregister(&tr);
                     return;
                 }
@@ -512,5 +573,5 @@ pub fn case(tape: &[u8], ctx: &Ctx) -> Outcome {
 }
 
 pub fn property() -> Property {
-    Property { id: "C18", rule: RULE, phases: vec![Phase::Prop { name: "histories x every failing allocation request", f: case, quick: 40_000, thorough: 1_000_000, max_tape: 200 }] }
+    Property { id: "C18", rule: RULE, phases: vec![Phase::Prop { name: "histories x every failing allocation request", f: case, quick: 200_000, thorough: 4_000_000, max_tape: 200 }] }
 }
